@@ -13,6 +13,7 @@ import (
 )
 
 type SpecCtx struct {
+	gmOld   bool // inside was(...): the ghost map itself is read from the old state
 	X       *Exec
 	St, Old *State
 	Vars    map[string]*Val // bindings valid in the current state
@@ -606,6 +607,9 @@ func (c *SpecCtx) binary(e *SExpr) *Val {
 	if a.T != nil && b.T != nil && (a.T.Sort.BV != 0 || b.T.Sort.BV != 0 || a.T.Sort.FP != 0 || b.T.Sort.FP != 0) {
 		return c.bvBinary(e, a, b)
 	}
+	if e.Op == "+" && a.T != nil && b.T != nil && a.T.Sort == SStr && b.T.Sort == SStr {
+		return &Val{T: X.E.StrCat(a.T, b.T), GT: types.Typ[types.String]} // string concatenation
+	}
 	if a.T == nil || b.T == nil || a.T.Sort != SInt || b.T.Sort != SInt {
 		c.fail("arithmetic on non-integers in %q", e.Src)
 	}
@@ -794,6 +798,22 @@ func (c *SpecCtx) call(e *SExpr) *Val {
 		return &Val{T: X.heap(c.state(), "GM|maxalloc", SInt), GT: intT}
 	case "maxmake":
 		return &Val{T: X.heap(c.state(), "GM|maxmake", SInt), GT: intT}
+	case "was": // was(g(args)): the ghost map g as it was in the old state, at arguments evaluated NOW
+		inner := e.Args[0]
+		for inner.Kind == "paren" {
+			inner = inner.Args[0]
+		}
+		gm := X.E.Specs.GhostMaps[inner.Name]
+		if gm == nil && c.Pkg != nil {
+			gm = X.E.Specs.GhostMaps[shortPkg(c.Pkg.Path())+"."+inner.Name]
+		}
+		if inner.Kind != "call" || gm == nil {
+			c.fail("was() needs a ghost map application")
+		}
+		c.gmOld = true
+		v := c.ghostMapRead(gm, inner)
+		c.gmOld = false
+		return v
 	case "panicked": // this path went through a call marked `maypanic` that panicked (and was recovered)
 		return &Val{T: X.heap(c.state(), "GH|~panicked", SBool), GT: boolT}
 	case "min", "max":
@@ -847,7 +867,14 @@ func (c *SpecCtx) ghostMapRead(gm *GhostMap, e *SExpr) *Val {
 	if len(e.Args) != len(ps) {
 		c.fail("ghost map %s takes %d arguments", gm.Name, len(ps))
 	}
-	t := X.heap(c.state(), name, srt)
+	hst := c.state()
+	if c.gmOld && c.Old != nil {
+		hst = c.Old
+	}
+	wasOld := c.gmOld
+	c.gmOld = false
+	t := X.heap(hst, name, srt)
+	defer func() { c.gmOld = wasOld }()
 	for i, a := range e.Args {
 		v := c.eval(a)
 		vt := c.coerce(v, ps[i])
